@@ -55,6 +55,7 @@ impl<R: Registry> Allocator<R> {
     pub proof fn lemma_slots_len_fits(&self) ensures self.slots@.len() <= usize::MAX {
         assert(self.slots.len() == self.slots@.len());
     }
+    pub open spec fn active_count(&self) -> nat { vx_active_count(self.slots@) }
     /// slot `s` is the same in `self` and `o`
     pub open spec fn same_slot(&self, o: &Self, s: int) -> bool {
         s < self.slots@.len() && s < o.slots@.len() && self.slots@[s] == o.slots@[s]
@@ -62,6 +63,55 @@ impl<R: Registry> Allocator<R> {
 }
 
 pub open spec fn vx_min(a: int, b: int) -> int { if a <= b { a } else { b } }
+
+/// number of active slots == number of live identifiers (C13: World::len())
+pub open spec fn vx_active_count<R: Registry>(s: Seq<Slot<R>>) -> nat
+    decreases s.len()
+{
+    if s.len() == 0 { 0 } else { vx_active_count(s.drop_last()) + (if s.last().location is Some { 1nat } else { 0nat }) }
+}
+pub proof fn lemma_count_push<R: Registry>(s: Seq<Slot<R>>, x: Slot<R>)
+    ensures vx_active_count(s.push(x)) == vx_active_count(s) + (if x.location is Some { 1nat } else { 0nat })
+{
+    assert(s.push(x).drop_last() =~= s);
+}
+pub proof fn lemma_count_update<R: Registry>(s: Seq<Slot<R>>, i: int, x: Slot<R>)
+    requires 0 <= i < s.len(),
+    ensures vx_active_count(s.update(i, x)) + (if s[i].location is Some { 1nat } else { 0nat })
+        == vx_active_count(s) + (if x.location is Some { 1nat } else { 0nat })
+    decreases s.len()
+{
+    if i == s.len() - 1 {
+        assert(s.update(i, x).drop_last() =~= s.drop_last());
+    } else {
+        assert(s.update(i, x).drop_last() =~= s.drop_last().update(i, x));
+        lemma_count_update(s.drop_last(), i, x);
+    }
+}
+pub proof fn lemma_count_same_activity<R: Registry>(s: Seq<Slot<R>>, t: Seq<Slot<R>>)
+    requires s.len() == t.len(), forall|i: int| 0 <= i < s.len() ==> ((#[trigger] s[i]).location is Some) == (t[i].location is Some),
+    ensures vx_active_count(s) == vx_active_count(t)
+    decreases s.len()
+{
+    if s.len() > 0 {
+        assert(s.last().location is Some == t.last().location is Some);
+        lemma_count_same_activity(s.drop_last(), t.drop_last());
+    }
+}
+pub proof fn lemma_count_bound<R: Registry>(s: Seq<Slot<R>>)
+    ensures vx_active_count(s) <= s.len()
+    decreases s.len()
+{
+    if s.len() > 0 { lemma_count_bound(s.drop_last()); }
+}
+/// no slot active  <=>  count 0
+pub proof fn lemma_count_zero<R: Registry>(s: Seq<Slot<R>>)
+    requires forall|i: int| 0 <= i < s.len() ==> (#[trigger] s[i]).location is None,
+    ensures vx_active_count(s) == 0
+    decreases s.len()
+{
+    if s.len() > 0 { assert(s.last().location is None); lemma_count_zero(s.drop_last()); }
+}
 
 /// a location re-keyed through the old-archetype -> new-archetype identifier map (C10)
 pub open spec fn vx_remap<R: Registry>(l: Option<Location<R>>, m: IMap<archetype::IdentifierRef<R>, archetype::IdentifierRef<R>>) -> Option<Location<R>> {
@@ -332,12 +382,20 @@ def build(name="alloc", archetype_items=None):
             ("C13.free_fifo", "old(self).free@.len() > 0 ==> id.index == old(self).free@[0] && final(self).free@ == old(self).free@.subrange(1, old(self).free@.len() as int)"),
             ("C13.free_untouched_when_empty", "old(self).free@.len() == 0 ==> final(self).free@ == old(self).free@ && id.index == old(self).slots@.len()"),
             ("hist.allocate_post", "Self::allocate_post(old(self), final(self), location, id)"),
+            ("C13.count", "final(self).active_count() == old(self).active_count() + 1"),
         ],
         hints=[
             Hint("start", "let ghost vx_old = *self;"),
             Hint("end", r'''proof {
             let id = entity::Identifier { index, generation };
             self.lemma_slots_len_fits(); vx_old.lemma_slots_len_fits();
+            if vx_old.free@.len() > 0 {
+                assert(self.slots@ =~= vx_old.slots@.update(index as int, self.slots@[index as int]));
+                lemma_count_update(vx_old.slots@, index as int, self.slots@[index as int]);
+            } else {
+                assert(self.slots@ =~= vx_old.slots@.push(self.slots@[index as int]));
+                lemma_count_push(vx_old.slots@, self.slots@[index as int]);
+            }
             if vx_old.free@.len() > 0 {
                 assert(index == vx_old.free@[0]);
                 assert(self.free@ =~= vx_old.free@.subrange(1, vx_old.free@.len() as int));
@@ -392,6 +450,7 @@ def build(name="alloc", archetype_items=None):
             ("C02.new_slot", "forall|k: int| 0 <= k < ids@.len() && k >= old(self).free@.len() ==> (#[trigger] ids@[k]).generation == 0"),
             ("C13.free_consumed_exactly", "final(self).free@ == old(self).free@.subrange(vx_min(old(self).free@.len() as int, ids@.len() as int), old(self).free@.len() as int)"),
             ("frame.slots_len", "final(self).slots@.len() == old(self).slots@.len() + ids@.len() - vx_min(old(self).free@.len() as int, ids@.len() as int)"),
+            ("C13.count", "final(self).active_count() == old(self).active_count() + ids@.len()"),
             ("frame.other_slots", "forall|s: int| 0 <= s < old(self).slots@.len() && !(exists|k: int| 0 <= k < ids@.len() && (#[trigger] ids@[k]).index == s) ==> final(self).slots@[s] == old(self).slots@[s]"),
             ("C01.view_dom", "forall|i: entity::Identifier| final(self).resolves(i) == (old(self).resolves(i) || ids@.contains(i))"),
             ("C01.view_others", "forall|i: entity::Identifier| old(self).resolves(i) ==> final(self).view()[i] == old(self).view()[i]"),
@@ -428,11 +487,14 @@ def build(name="alloc", archetype_items=None):
                ("frame.generations", "forall|s: int| 0 <= s < old(self).slots@.len() ==> (#[trigger] final(self).slots@[s]).generation == old(self).slots@[s].generation"),
                ("frame.other_slots", "forall|s: int| 0 <= s < old(self).slots@.len() && s != identifier.index ==> final(self).slots@[s] == old(self).slots@[s]"),
                ("hist.free_post", "Self::free_post(old(self), final(self), identifier)"),
+               ("C13.count", "final(self).active_count() + 1 == old(self).active_count()"),
            ],
            hints=[
                Hint("start", "let ghost vx_old = *self;"),
                Hint("after", r'''proof {
             self.lemma_slots_len_fits(); vx_old.lemma_slots_len_fits();
+            assert(self.slots@ =~= vx_old.slots@.update(identifier.index as int, self.slots@[identifier.index as int]));
+            lemma_count_update(vx_old.slots@, identifier.index as int, self.slots@[identifier.index as int]);
             assert(self.free@ =~= vx_old.free@.push(identifier.index));
             assert forall|i: int| 0 <= i < vx_old.free@.len() implies vx_old.free@[i] != identifier.index by {
                 assert(vx_old.slots@[vx_old.free@[i] as int].location is None);
@@ -463,6 +525,7 @@ def build(name="alloc", archetype_items=None):
            requires=[("pre.wf", "old(self).wf()"), ("pre.safety_identifier_live", "old(self).resolves(identifier)")],
            ensures=WF_ENS + [
                ("C02.same_ids", "final(self).view() == old(self).view().insert(identifier, location)"),
+               ("C13.count", "final(self).active_count() == old(self).active_count()"),
                ("frame.free", "final(self).free@ == old(self).free@"),
                ("frame.slots_len", "final(self).slots@.len() == old(self).slots@.len()"),
                ("frame.generations", "forall|s: int| 0 <= s < old(self).slots@.len() ==> (#[trigger] final(self).slots@[s]).generation == old(self).slots@[s].generation"),
@@ -472,6 +535,8 @@ def build(name="alloc", archetype_items=None):
                Hint("start", "let ghost vx_old = *self;"),
                Hint("end", r'''proof {
             self.lemma_slots_len_fits(); vx_old.lemma_slots_len_fits();
+            assert(self.slots@ =~= vx_old.slots@.update(identifier.index as int, self.slots@[identifier.index as int]));
+            lemma_count_update(vx_old.slots@, identifier.index as int, self.slots@[identifier.index as int]);
             assert(self.view() =~= vx_old.view().insert(identifier, location)) by {
                 assert forall|i: entity::Identifier| self.resolves(i) == (i == identifier || vx_old.resolves(i)) by {
                     if i.index != identifier.index && i.index < vx_old.slots@.len() { assert(self.slots@[i.index as int] == vx_old.slots@[i.index as int]); }
@@ -493,6 +558,7 @@ def build(name="alloc", archetype_items=None):
            requires=[("pre.wf", "old(self).wf()"), ("pre.safety_identifier_live", "old(self).resolves(identifier)")],
            ensures=WF_ENS + [
                ("C02.same_ids", "final(self).view() == old(self).view().insert(identifier, Location { identifier: old(self).view()[identifier].identifier, index })"),
+               ("C13.count", "final(self).active_count() == old(self).active_count()"),
                ("frame.free", "final(self).free@ == old(self).free@"),
                ("frame.slots_len", "final(self).slots@.len() == old(self).slots@.len()"),
                ("frame.generations", "forall|s: int| 0 <= s < old(self).slots@.len() ==> (#[trigger] final(self).slots@[s]).generation == old(self).slots@[s].generation"),
@@ -502,6 +568,8 @@ def build(name="alloc", archetype_items=None):
                Hint("start", "let ghost vx_old = *self;"),
                Hint("end", r'''proof {
             self.lemma_slots_len_fits(); vx_old.lemma_slots_len_fits();
+            assert(self.slots@ =~= vx_old.slots@.update(identifier.index as int, self.slots@[identifier.index as int]));
+            lemma_count_update(vx_old.slots@, identifier.index as int, self.slots@[identifier.index as int]);
             let nl = Location { identifier: vx_old.view()[identifier].identifier, index };
             assert(self.view() =~= vx_old.view().insert(identifier, nl)) by {
                 assert forall|i: entity::Identifier| self.resolves(i) == (i == identifier || vx_old.resolves(i)) by {
@@ -524,7 +592,8 @@ def build(name="alloc", archetype_items=None):
     u.impl("impl<R> Allocator<R> where R: Registry", [
         Fn(A, r"^impl<R> Allocator<R>", "shrink_to_fit",
            ensures=[("C02.shrink_keeps_slots", "final(self).slots@ == old(self).slots@"),
-                    ("C13.shrink_keeps_free", "final(self).free@ == old(self).free@")],
+                    ("C13.shrink_keeps_free", "final(self).free@ == old(self).free@"),
+                    ("C13.count", "final(self).active_count() == old(self).active_count()")],
            props=["C02", "C13", "C01"]),
         Fn(A, r"^impl<R> Allocator<R>", "clone", ret="r",
            rewrites=[(r"let mut vx_v = Vec::new\(\)", "let mut vx_v: Vec<Slot<R>> = Vec::new()", "type ascription only")],
@@ -691,6 +760,9 @@ def attach_allocate_batch_proof(f, WF_INV):
         Hint("after", r'''proof {
                 let k = vx_k;
                 self.lemma_slots_len_fits(); vx_old.lemma_slots_len_fits();
+                assert(self.slots@ =~= vx_pre.slots@.update(index as int, self.slots@[index as int]));
+                lemma_count_update(vx_pre.slots@, index as int, self.slots@[index as int]);
+                assert(vx_pre.slots@[index as int].location is None);
                 assert(self.free@ == vx_pre.free@);
                 assert forall|i: int| 0 <= i < self.free@.len() implies (#[trigger] self.free@[i]) != index by {
                     assert(self.free@[i] == vx_old.free@[k + 1 + i]);
@@ -726,6 +798,9 @@ def attach_allocate_batch_proof(f, WF_INV):
             }''', anchor=r"identifiers\.push\(entity::Identifier::new\(index, slot\.generation\)\)"),
         Hint("after", "let ghost vx_mid = *self; let ghost vx_mid_start = locations.indices.start as int; let ghost vx_reused = identifiers@.len() as int; let ghost vx_ids1 = identifiers@;",
              anchor=r"let slots_len = self\.slots\.len\(\)"),
+        Hint("before", "let ghost vx_s = self.slots@;", anchor=r"self\.slots\.push\(Slot::new\(location\)\)"),
+        Hint("after", "proof { assert(self.slots@ =~= vx_s.push(self.slots@.last())); lemma_count_push(vx_s, self.slots@.last()); }",
+             anchor=r"self\.slots\.push\(Slot::new\(location\)\)"),
         Hint("end", END_PROOF),
     ]
     reused_inv = [
@@ -733,6 +808,7 @@ def attach_allocate_batch_proof(f, WF_INV):
         ("reuse.count_le_free", "identifiers@.len() <= vx_old.free@.len()"),
         ("reuse.free_is_suffix", "self.free@ == vx_old.free@.subrange(identifiers@.len() as int, vx_old.free@.len() as int)"),
         ("reuse.slots_len", "self.slots@.len() == vx_old.slots@.len()"),
+        ("reuse.active_count", "vx_active_count(self.slots@) == vx_active_count(vx_old.slots@) + identifiers@.len()"),
         ("reuse.ids", "forall|k: int| 0 <= k < identifiers@.len() ==> (#[trigger] identifiers@[k]).index == vx_old.free@[k] && identifiers@[k].generation == vx_old.slots@[vx_old.free@[k] as int].generation.wrapping_add(1)"),
         ("reuse.slots", "forall|k: int| 0 <= k < identifiers@.len() ==> (#[trigger] self.slots@[vx_old.free@[k] as int]) == (Slot { generation: vx_old.slots@[vx_old.free@[k] as int].generation.wrapping_add(1), location: Some(vx_l0.nth(k)) })"),
         ("reuse.untouched", "forall|s: int| 0 <= s < vx_old.slots@.len() && !(exists|k: int| 0 <= k < identifiers@.len() && #[trigger] vx_old.free@[k] == s) ==> self.slots@[s] == vx_old.slots@[s]"),
@@ -751,6 +827,7 @@ def attach_allocate_batch_proof(f, WF_INV):
             ("new.slots", "forall|s: int| slots_len <= s < self.slots@.len() ==> (#[trigger] self.slots@[s]) == (Slot { generation: 0, location: Some(vx_l0.nth(vx_mid_start - vx_l0.indices.start + s - slots_len)) })"),
             ("new.bound", "vx_mid_start <= locations.indices.start <= locations.indices.end"),
             ("new.slots_len", "slots_len == vx_mid.slots@.len()"),
+            ("new.count", "vx_active_count(self.slots@) == vx_active_count(vx_mid.slots@) + self.slots@.len() - slots_len"),
         ], ensures=[("new.exit", "locations.indices.start == locations.indices.end")],
            decreases="locations.indices.end - locations.indices.start"),
         Loop(invariant=[
